@@ -69,6 +69,9 @@ pub enum Aspect {
 
 #[derive(Clone, Debug, Default)]
 pub struct Flags {
+    /// every other vanish is preceded by storing the very request event that is then handed to `vanish` (as a relay
+    /// does that records what it accepts): the request is authored by the vanishing key and goes with the rest
+    pub vanish_stores_request: bool,
     /// compare the store with the model after every step (ids, markers, holders, stats)
     pub verify_each_step: bool,
     /// re-read every offset ever returned after every step (C04)
@@ -563,10 +566,23 @@ impl<'r> Eng<'r> {
         if self.aborted || self.store.is_none() {
             return;
         }
+        // vanish takes an event (the request); only its pubkey is used
+        let mut req = SemEvent { id: [0xEE; 32], pubkey: *pk, sig: [0; 64], kind: 62, created_at: 1, tags: vec![], content: String::new() };
+        if self.flags.vanish_stores_request && self.steps % 2 == 0 {
+            let h = fnv_parts(&[&pk[..], &self.steps.to_le_bytes()]);
+            for (i, b) in req.id.iter_mut().enumerate() {
+                *b = (h >> (8 * (i % 8))) as u8 ^ (i as u8).wrapping_mul(37);
+            }
+            if let Some(ev) = Ev::new(req.clone()) {
+                let _ = self.store(&ev);
+                self.rep.count("vanish_requests_stored_before_vanish");
+                if self.aborted || self.store.is_none() {
+                    return;
+                }
+            }
+        }
         self.steps += 1;
         self.ops.push(COp::Vanish(*pk));
-        // vanish takes an event (the request); only its pubkey is used
-        let req = SemEvent { id: [0xEE; 32], pubkey: *pk, sig: [0; 64], kind: 62, created_at: 1, tags: vec![], content: String::new() };
         let o = req.to_owned().unwrap();
         let targets = self.model.vanish_targets(pk);
         let store = self.store.as_ref().unwrap();
